@@ -73,36 +73,36 @@ type C18G struct {
 }
 
 var c18Sites = []string{
-	"hydra:SummonSwamp:2:LoadOrStore",
-	"hydra:SummonSwamp:3:Lock",
-	"hydra:SummonSwamp:7:atomic.AddInt32",
-	"hydra:SummonSwamp:8:Wait",
-	"hydra:SummonSwamp:9:Unlock",
-	"hydra:SummonSwamp:10:Lock",
-	"hydra:SummonSwamp:11:Broadcast",
-	"hydra:SummonSwamp:12:Unlock",
-	"hydra:SummonSwamp:13:atomic.AddInt32",
-	"hydra:SummonSwamp:14:atomic.LoadInt32",
-	"hydra:SummonSwamp:15:Delete",
-	"hydra:SummonSwamp:16:select",
-	"hydra:SummonSwamp:17:Store",
-	"hydra:getSwamp:1:Load",
-	"hydra:closeEventCallbackFunction:1:Delete",
-	"swamp:IsClosing:2:atomic.LoadInt32",
-	"swamp:WaitForGracefulClose:2:select",
-	"swamp:Close:4:atomic.StoreInt32",
-	"swamp:Close:6:atomic.LoadInt32",
-	"swamp:Destroy:2:Lock",
-	"swamp:Destroy:6:Lock",
+	"hydra:SummonSwamp:LoadOrStore:5532d7",
+	"hydra:SummonSwamp:Lock:ebad88",
+	"hydra:SummonSwamp:atomic.AddInt32:b6130e",
+	"hydra:SummonSwamp:Wait:ec33be",
+	"hydra:SummonSwamp:Unlock:ad0bd9~2",
+	"hydra:SummonSwamp:Lock:ebad88~2",
+	"hydra:SummonSwamp:Broadcast:b7e22c~2",
+	"hydra:SummonSwamp:Unlock:ad0bd9~3",
+	"hydra:SummonSwamp:atomic.AddInt32:dce15d",
+	"hydra:SummonSwamp:atomic.LoadInt32:bc7d38",
+	"hydra:SummonSwamp:Delete:adb849",
+	"hydra:SummonSwamp:select:3e8f84~2",
+	"hydra:SummonSwamp:Store:93684c",
+	"hydra:getSwamp:Load:16ca65",
+	"hydra:closeEventCallbackFunction:Delete:d37bbd",
+	"swamp:IsClosing:atomic.LoadInt32:302240",
+	"swamp:WaitForGracefulClose:select:3e8f84",
+	"swamp:Close:atomic.StoreInt32:cf5c57",
+	"swamp:Close:atomic.LoadInt32:a437c9",
+	"swamp:Destroy:Lock:e3ba16",
+	"swamp:Destroy:Lock:aec636",
 }
 
 var c18Untils = []string{
 	"teardown-done",
-	"site:hydra:SummonSwamp:8:Wait",
-	"site:hydra:SummonSwamp:15:Delete",
-	"site:hydra:SummonSwamp:17:Store",
-	"site:hydra:closeEventCallbackFunction:1:Delete",
-	"site:hydra:getSwamp:1:Load",
+	"site:hydra:SummonSwamp:Wait:ec33be",
+	"site:hydra:SummonSwamp:Delete:adb849",
+	"site:hydra:SummonSwamp:Store:93684c",
+	"site:hydra:closeEventCallbackFunction:Delete:d37bbd",
+	"site:hydra:getSwamp:Load:16ca65",
 }
 
 func genC18Plan(t *rapid.T, max int) []vsched.Action {
@@ -162,9 +162,9 @@ func genC18Shape(t *rapid.T) C18Scenario {
 	s.Phases = []C18Phase{ph}
 	s.Plan = []vsched.Action{
 		// A (first at the Store site) waits until B has queued on the slot
-		{Site: c18StoreSite, Hit: 1, Kind: "pause", Until: "site:hydra:SummonSwamp:8:Wait", MaxWaitMs: 100},
+		{Site: c18StoreSite, Hit: 1, Kind: "pause", Until: "site:hydra:SummonSwamp:Wait:ec33be", MaxWaitMs: 100},
 		// B (second to take ownership) is held right after its wake-up until the teardown has completed
-		{Site: "hydra:SummonSwamp:9:Unlock", Hit: 2, Kind: "pause", Until: "teardown-done", MaxWaitMs: 300},
+		{Site: "hydra:SummonSwamp:Unlock:ad0bd9~2", Hit: 2, Kind: "pause", Until: "teardown-done", MaxWaitMs: 300},
 		// both creators linger before publishing their instance
 		{Site: c18StoreSite, Hit: 0, Kind: "sleep", SleepUs: storeSleep},
 	}
@@ -211,11 +211,11 @@ func genC18(free bool) func(t *rapid.T) C18Scenario {
 						g := genC18Summoner(t, s.Names, true)
 						g.Name, g.Reps, g.DelayUs, g.After = nm, 1, 0, fmt.Sprintf("teardown-done:p%d", p)
 						ph.G = append(ph.G, g)
-						holdSite := "swamp:Close:6:atomic.LoadInt32"
+						holdSite := "swamp:Close:atomic.LoadInt32:a437c9"
 						if end == 2 {
-							holdSite = "swamp:Destroy:6:Lock"
+							holdSite = "swamp:Destroy:Lock:aec636"
 						}
-						extra = append(extra, vsched.Action{Site: holdSite, Hit: 0, Kind: "pause", Until: "site:swamp:WaitForGracefulClose:2:select",
+						extra = append(extra, vsched.Action{Site: holdSite, Hit: 0, Kind: "pause", Until: "site:swamp:WaitForGracefulClose:select:3e8f84",
 							MaxWaitMs: rapid.SampledFrom([]int{2, 10}).Draw(t, "holdms")})
 						continue
 					}
@@ -607,13 +607,13 @@ func (c *c18Run) judge(s C18Scenario, rep vsched.Report) pbt.Outcome {
 			}
 		}
 	}
-	if rep.Hits["hydra:SummonSwamp:8:Wait"] > 0 {
+	if rep.Hits["hydra:SummonSwamp:Wait:ec33be"] > 0 {
 		classes["summoner-queued-on-slot"] = true
 	}
-	if rep.Hits["hydra:SummonSwamp:15:Delete"] > 0 {
+	if rep.Hits["hydra:SummonSwamp:Delete:adb849"] > 0 {
 		classes["slot-deleted"] = true
 	}
-	if rep.Hits["swamp:WaitForGracefulClose:2:select"] > 0 {
+	if rep.Hits["swamp:WaitForGracefulClose:select:3e8f84"] > 0 {
 		classes["summoner-waited-for-closing-swamp"] = true
 	}
 	if len(rep.Fired) > 0 {
@@ -680,7 +680,7 @@ const c18RuleFree = "as main, but every phase freely mixes 3–12 summoners (any
 	"hand-derived shape (A creates while B queues; A leaves ⇒ count 0 ⇒ slot deleted; A tears the swamp down; B held after wake-up until then; newcomer C) with jitter"
 
 // the site at which a creating summoner publishes its instance; its statement index depends on the engine sources
-var c18StoreSite = "hydra:SummonSwamp:17:Store"
+var c18StoreSite = "hydra:SummonSwamp:Store:93684c"
 
 func siteIndex(site string) int {
 	p := strings.Split(site, ":")
@@ -723,7 +723,7 @@ func c18CheckSites(t *testing.T) {
 			c18Sites = append(c18Sites, s)
 		}
 	}
-	requireSites(t, rep, "hydra:SummonSwamp:9:Unlock", c18StoreSite, "hydra:getSwamp:1:Load", "swamp:Close:6:atomic.LoadInt32", "hydra:closeEventCallbackFunction:1:Delete")
+	requireSites(t, rep, "hydra:SummonSwamp:Unlock:ad0bd9~2", c18StoreSite, "hydra:getSwamp:Load:16ca65", "swamp:Close:atomic.LoadInt32:a437c9", "hydra:closeEventCallbackFunction:Delete:d37bbd")
 }
 
 func TestC18Main(t *testing.T) {
